@@ -210,3 +210,65 @@ def same_bits(a: np.ndarray, b: np.ndarray) -> bool:
     if a.shape != b.shape or a.dtype != b.dtype:
         return False
     return a.tobytes() == b.tobytes()
+
+
+_HDR_TYPES = {
+    "telescope_id": "i", "machine_id": "i", "data_type": "i", "nchans": "i", "nbits": "i", "nifs": "i",
+    "ibeam": "i", "nbeams": "i", "barycentric": "i", "pulsarcentric": "i", "signed": "b",
+    "fch1": "d", "foff": "d", "tsamp": "d", "tstart": "d", "refdm": "d", "src_raj": "d", "src_dej": "d",
+    "az_start": "d", "za_start": "d", "period": "d", "nsamples": "i",
+    "source_name": "s", "rawdatafile": "s",
+}
+
+
+class HeaderError(Exception):
+    pass
+
+
+def parse_header(buf: bytes):
+    """Independent SIGPROC header parser: (fields, hdrlen).  Raises HeaderError when `buf` does
+    not start with ONE complete header."""
+    pos = 0
+
+    def rstr():
+        nonlocal pos
+        if pos + 4 > len(buf):
+            raise HeaderError("truncated length")
+        (n,) = struct.unpack_from("<I", buf, pos)
+        pos += 4
+        if n > 80 or pos + n > len(buf):
+            raise HeaderError(f"bad string length {n}")
+        s = buf[pos : pos + n]
+        pos += n
+        try:
+            return s.decode("ascii")
+        except UnicodeDecodeError:
+            raise HeaderError("non-ascii key") from None
+
+    if rstr() != "HEADER_START":
+        raise HeaderError("no HEADER_START")
+    fields = {}
+    while True:
+        k = rstr()
+        if k == "HEADER_END":
+            break
+        ty = _HDR_TYPES.get(k)
+        if ty is None:
+            raise HeaderError(f"unknown key {k!r}")
+        if ty == "s":
+            fields[k] = rstr()
+        else:
+            size = struct.calcsize("<" + ty)
+            if pos + size > len(buf):
+                raise HeaderError("truncated value")
+            (fields[k],) = struct.unpack_from("<" + ty, buf, pos)
+            pos += size
+    return fields, pos
+
+
+def read_sigproc(path: str):
+    """(fields, hdrlen, data bytes) of a file on the simulated disk, with the harness' parser."""
+    with open(path, "rb") as fp:
+        buf = fp.read()
+    fields, hdrlen = parse_header(buf)
+    return fields, hdrlen, buf[hdrlen:]
